@@ -42,6 +42,10 @@ type Config struct {
 	Matcher string   `json:"matcher"` // re | dissect | always
 	Extract string   `json:"extract"`
 	Ignore  string   `json:"ignore"`
+	// IgnoreFirst, when set, are ignore expressions evaluated BEFORE Ignore
+	// that are never truthy on the harness's inputs (the set is shared by all
+	// workers; any truthy expression ignores)
+	IgnoreFirst []string `json:"ignore_first,omitempty"`
 	Batch   int      `json:"batch"`
 	Workers int      `json:"workers"`
 	Readers int      `json:"readers"`
@@ -350,7 +354,7 @@ func body(c *Config, o *obs) {
 	var ig extractor.IgnoreSet
 	if c.Ignore != "" {
 		var err error
-		if ig, err = extractor.NewIgnoreExpressions(c.Ignore); err != nil {
+		if ig, err = extractor.NewIgnoreExpressions(append(append([]string{}, c.IgnoreFirst...), c.Ignore)...); err != nil {
 			panic(err)
 		}
 	}
@@ -849,6 +853,11 @@ func configs(prop, tier string) []*Config {
 	}
 	add(Config{Path: "reader", Sources: []string{shapes[8]}, Matcher: "dissect", Extract: exFull, Batch: 1, Workers: 2, Readers: 1, Buffer: 2})
 	add(Config{Path: "reader", Sources: []string{shapes[8]}, Matcher: "re", Extract: exFull, Batch: 1, Workers: 0, Readers: 1, Buffer: 1})
+	// several ignore expressions, the truthy one last (a set that reorders or
+	// caches its expressions is shared by the workers)
+	for _, s := range []int{9, 8} {
+		add(Config{Path: "reader", Sources: []string{shapes[s]}, Matcher: "re", Extract: exFull, Ignore: igEqB, IgnoreFirst: []string{"{eq {0} zz}", "{eq {1} zz}"}, Batch: 1, Workers: 2, Readers: 1, Buffer: 1})
+	}
 	add(Config{Path: "files", Sources: []string{shapes[2], shapes[3]}, Matcher: "re", Extract: exFull, Batch: 2, Workers: -1, Readers: 2, Buffer: 1})
 	for _, l := range logics[1:] {
 		for _, s := range []int{4, 7, 9} {
